@@ -237,6 +237,15 @@ def _tree_mean(check: Check, fi: FuncInfo):
   tg = wmean.loop_targets(loop)
   it_ok = _iter_of_param(ff, loop.iter, fi.positional_params[0]) and len(tg) == 2 and all(isinstance(t, ast.Name) for t in tg)
   xn, wn = (tg[0].id, tg[1].id) if it_ok else (None, None)
+  unrecognised = False
+  if not it_ok and _iter_of_param(ff, loop.iter, fi.positional_params[0]) and len(tg) == 1 and isinstance(tg[0], ast.Name):
+    # for pair in pairs: tree, weight = pair
+    for st in loop.body:
+      if isinstance(st, ast.Assign) and isinstance(st.targets[0], ast.Tuple) and len(st.targets[0].elts) == 2 and all(
+          isinstance(t, ast.Name) for t in st.targets[0].elts) and isinstance(st.value, ast.Name) and st.value.id == tg[0].id:
+        xn, wn = st.targets[0].elts[0].id, st.targets[0].elts[1].id
+        it_ok = True
+    unrecognised = not it_ok
   # T = tree_weight(x, w)
   def is_T(e):
     for v in ff.expand(e):
@@ -263,7 +272,7 @@ def _tree_mean(check: Check, fi: FuncInfo):
     check.ob('R-WMEAN.init', fi, f'{wname} = {txt(v0)}', is_float,
              'the weight total is accumulated in floating point (0. + w promotes fixed-width integer weights; 0 + w wraps around)', node=v0)
   check.ob('R-WMEAN.mean', fi, f'{sname}, {wname} over {txt(loop.iter)}',
-           ret_ok and it_ok and first_ok and add_ok and w_ok and rec['polarity_ok'],
+           None if unrecognised else (ret_ok and it_ok and first_ok and add_ok and w_ok and rec['polarity_ok']),
            f'single pass over (tree, weight) pairs (ok={it_ok}); each tree weighted by its own weight before it is '
            f'stored/added (first={first_ok}, add={add_ok}); total weight adds the same weight every iteration (ok={w_ok}); '
            f'returns the zero-guarded quotient (ok={ret_ok})', node=inv)
